@@ -245,14 +245,10 @@ def run_shards(pid, tier, seed, nshards, budget, timeout, replay_file=None):
 
 
 def load_known():
-    import glob
-    out = []
+    # one committed file; only entries with status 'open' can classify a witness ('fixed' lines suppress nothing)
     path = os.path.join(VERIF, 'known_findings.json')
-    if os.path.exists(path):
-        out.extend(json.load(open(path))['findings'])
-    for extra in sorted(glob.glob(os.path.join(VERIF, 'known_findings.d', '*.json'))):
-        out.extend(json.load(open(extra))['findings'])
-    return out
+    with open(path) as f:
+        return json.load(f)['findings']
 
 
 def classify(w, known):
